@@ -171,8 +171,13 @@ Invoke(f) ==
 
 Quiet(out) == [calls |-> calls, ninv |-> ninv, out |-> out]
 
+\* a frame of kind "cmap" is a mapping that computes its values on access (pushed by dtml-with ... mapping): every
+\* successful read of it is an observable event, logged as "g:name" -- a search reads it at most once
+ReadLog(i, name) == IF i > 0 /\ ns[i].kind = "cmap" THEN <<"g:" \o name>> ELSE <<>>
+Prefixed(pre, q) == [q EXCEPT !.calls = calls \o pre \o SubSeq(q.calls, Len(calls) + 1, Len(q.calls))]
+
 \* md[name]  (TemplateDict.getitem(name, call=1))
-MdGet(name) ==
+MdGet0(name) ==
     LET i == Find(name) IN
     IF i = 0 THEN Quiet([tag |-> "exc", e |-> Raised("KeyError", name)])
     ELSE IF i = -1 THEN Quiet([tag |-> "exc", e |-> Raised("TypeError", NoneMsg)])
@@ -181,43 +186,52 @@ MdGet(name) ==
          ELSE IF v.k = "tmpl" THEN Quiet([tag |-> "tmpl", v |-> v])
          ELSE Quiet([tag |-> "val", v |-> v])
 
+MdGet(name) == Prefixed(ReadLog(Find(name), name), MdGet0(name))
+
 \* md.getitem(name, 0) as done by Eval.eval for the names an expression uses
-MdRaw(name) ==
+MdRaw0(name) ==
     LET i == Find(name) IN
     IF i = 0 THEN Quiet([tag |-> "exc", e |-> Raised("NameError", name)])
     ELSE IF i = -1 THEN Quiet([tag |-> "exc", e |-> Raised("TypeError", NoneMsg)])
     ELSE Quiet([tag |-> "val", v |-> ValIn(ns[i], name)])
 
+MdRaw(name) == Prefixed(ReadLog(Find(name), name), MdRaw0(name))
+
 \* references:  name n | expr "n()" | expr "n" | expr "not n" | expr "o.a"
 EvalRef(r) ==
     CASE r.k = "name" -> MdGet(r.n)
-      [] r.k = "call" -> LET q == MdRaw(r.n) IN
+      \* (the expression forms read the name once, uncalled; what they then do does not read the namespace again)
+      [] r.k = "call" -> Prefixed(ReadLog(Find(r.n), r.n),
+                         LET q == MdRaw0(r.n) IN
                          IF q.out.tag = "exc" THEN q
                          ELSE IF q.out.v.k = "fn" THEN Invoke(q.out.v)
-                         ELSE Quiet([tag |-> "exc", e |-> Raised("TypeError", "not callable")])
+                         ELSE Quiet([tag |-> "exc", e |-> Raised("TypeError", "not callable")]))
       [] r.k = "val"  -> MdRaw(r.n)
-      [] r.k = "not"  -> LET q == MdRaw(r.n) IN
+      [] r.k = "not"  -> Prefixed(ReadLog(Find(r.n), r.n),
+                         LET q == MdRaw0(r.n) IN
                          IF q.out.tag = "exc" THEN q
                          ELSE Quiet([tag |-> "val", v |-> [k |-> "plain", id |-> "True", fid |-> "False",
-                                                          t |-> ~Truth(q.out.v)]])
+                                                          t |-> ~Truth(q.out.v)]]))
       \* the namespace object `_` inside expressions: _['n'] and _.getitem('n', 1) look up like a tag does (callables are
       \* called), _.getitem('n', 0) hands the value over uncalled, _.has_key('n') searches without evaluating,
       \* _.render(n) renders a value the way a tag would (templates are not used with these forms here)
       [] r.k \in {"item", "get1"} -> MdGet(r.n)
-      [] r.k = "get0" -> LET i == Find(r.n) IN
+      [] r.k = "get0" -> LET i == Find(r.n) IN Prefixed(ReadLog(i, r.n),
                          IF i = 0 THEN Quiet([tag |-> "exc", e |-> Raised("KeyError", r.n)])
                          ELSE IF i = -1 THEN Quiet([tag |-> "exc", e |-> Raised("TypeError", NoneMsg)])
-                         ELSE Quiet([tag |-> "val", v |-> ValIn(ns[i], r.n)])
-      [] r.k = "haskey" -> LET i == Find(r.n) IN
+                         ELSE Quiet([tag |-> "val", v |-> ValIn(ns[i], r.n)]))
+      [] r.k = "haskey" -> LET i == Find(r.n) IN Prefixed(ReadLog(i, r.n),
                          IF i = -1 THEN Quiet([tag |-> "exc", e |-> Raised("TypeError", NoneMsg)])
-                         ELSE Quiet([tag |-> "val", v |-> [k |-> "plain", id |-> "True", fid |-> "False", t |-> (i # 0)]])
-      [] r.k = "render" -> LET q == MdRaw(r.n) IN
+                         ELSE Quiet([tag |-> "val", v |-> [k |-> "plain", id |-> "True", fid |-> "False", t |-> (i # 0)]]))
+      [] r.k = "render" -> Prefixed(ReadLog(Find(r.n), r.n),
+                         LET q == MdRaw0(r.n) IN
                          IF q.out.tag = "exc" THEN q
-                         ELSE IF q.out.v.k = "fn" THEN Invoke(q.out.v) ELSE q
-      [] r.k = "attr" -> LET q == MdRaw(r.n) IN
+                         ELSE IF q.out.v.k = "fn" THEN Invoke(q.out.v) ELSE q)
+      [] r.k = "attr" -> Prefixed(ReadLog(Find(r.n), r.n),
+                         LET q == MdRaw0(r.n) IN
                          IF q.out.tag = "exc" THEN q
                          ELSE IF r.a \in DOMAIN q.out.v.a THEN Quiet([tag |-> "val", v |-> q.out.v.a[r.a]])
-                         ELSE Quiet([tag |-> "exc", e |-> Raised("AttributeError", r.a)])
+                         ELSE Quiet([tag |-> "exc", e |-> Raised("AttributeError", r.a)]))
 
 ---------------------------------------------------------------------------
 (* control frames *)
@@ -498,7 +512,7 @@ RbWith ==
             THEN exc' = q.out.e /\ UNCHANGED <<ctl, ns, evs>>
             ELSE LET f0 == IF IsNone(q.out.v)
                            THEN Frame(IF Node.mapping THEN "none" ELSE "inst", EmptyFn)
-                           ELSE Frame(IF Node.mapping THEN "map" ELSE "inst", q.out.v.a)
+                           ELSE Frame(IF Node.mapping THEN (IF q.out.v.k = "cmap" THEN "cmap" ELSE "map") ELSE "inst", q.out.v.a)
                      f  == [f0 EXCEPT !.bar = Node.only] IN
                  /\ ns' = Append(ns, f)
                  /\ evs' = IF Node.only THEN evs ELSE Append(evs, PushEv(f.kind, Len(ns) + 1))
